@@ -160,6 +160,12 @@ def repo():
 # stdout sink (stub for Election.prog's progress dots)
 # --------------------------------------------------------------------------
 
+#: is the simulated console a terminal?  (set per case by an engine; code that asks isatty() sees this)
+SINK_TTY = False
+#: is the simulated console closed?  (fault injection: every write/flush fails like a closed file)
+SINK_CLOSED = False
+
+
 class Sink(io.TextIOBase):
     "counts what the package writes to the console during a count"
 
@@ -168,16 +174,22 @@ class Sink(io.TextIOBase):
         self.chars = 0
         self.writes = 0
 
+    def isatty(self):
+        return SINK_TTY
+
     def writable(self):
         return True
 
     def write(self, s):
+        if SINK_CLOSED:
+            raise ValueError("I/O operation on closed file.")
         self.chars += len(s)
         self.writes += 1
         return len(s)
 
     def flush(self):
-        pass
+        if SINK_CLOSED:
+            raise ValueError("I/O operation on closed file.")
 
 
 class sunk_stdout:
